@@ -518,6 +518,11 @@ def expand(d) -> str:
     return ''.join(u * int(c) for u, c in d)[:6000]
 
 
+# Strings that number parsers (int()/float()) accept or nearly accept, but which are not all safe bare tokens.
+NUMBERLIKE = ['+5', '-5', '--5', '5-', '-', '+', ' 7', '12 ', ' 3 ', '\t4', '1e3', '1e+5', '0x10', '1_000', '\u0663', '007',
+              '-0', '+0', '1.5', '.5', '5.', '+.5', 'inf', '-inf', 'nan', '+90', '5 5', '1,5', '']
+
+
 def kv_name():
     return st.one_of(st.sampled_from(['k0', 'k1', 'K2', 'spawnflags', 'model']), gens.ident(1, 6))
 
@@ -525,7 +530,7 @@ def kv_name():
 def value_item():
     return st.fixed_dictionaries({
         'v': st.one_of(st.integers(-3, 40).map(str), st.sampled_from(['0.5', '-1.25', '1e3', 'on', 'a b']),
-                       short_text(6)),
+                       st.sampled_from(NUMBERLIKE), short_text(6)),
         'bit': st.integers(0, 31),
         'name': st.one_of(short_text(8), short_text(8), st.just(''), long_text(), edge_text()),
         'on': st.booleans(),
@@ -535,7 +540,7 @@ def value_item():
 
 def default_field():
     return st.one_of(st.just(''), st.just(''), st.integers(-5, 300).map(str), st.sampled_from(['-', '1-2', '0 0 0', '255 128 0 200']),
-                     short_text(8), short_text(8))
+                     st.sampled_from(NUMBERLIKE), st.sampled_from(NUMBERLIKE), short_text(8), short_text(8))
 
 
 def kv_strategy(engine: bool):
@@ -771,8 +776,8 @@ def build_kv(kd, cs: bool, stats: Stats, engine: bool = False):
             value = expand(it['v'])
             if not cs:
                 value = value.replace('\\', '').replace('\r', '')
-            if _is_number(value) and not _plain_number(value):
-                value = 'v' + value    # "Numbers can be unquoted": only plain numerals are generated as numbers
+            if value in NUMBERLIKE and value:
+                stats.labels.add('choice:numberlike')
             tags = frozenset(t.upper() for t in it['tags'])
             if tags:
                 stats.labels.add('choice_tags')
@@ -793,6 +798,10 @@ def build_kv(kd, cs: bool, stats: Stats, engine: bool = False):
         stats.labels.add('desc_without_default')
     if any(c in default for c in '"\\\n'):
         stats.labels.add('default_needs_escape')
+    if default in NUMBERLIKE and default and vt is not ValueTypes.SPAWNFLAGS:
+        stats.labels.add('default:numberlike')
+        if default != default.strip() or '+' in default:
+            stats.labels.add('default:numberlike_not_bare_safe')
     return KVDef(kd['name'], vt, disp, default, desc, val_list, bool(kd['ro']), bool(kd['rep']))
 
 
@@ -1212,7 +1221,8 @@ SUBCHECKS = [
         must_hit=('cs0', 'cs1', 'label0', 'label1', 'empty_disp', 'empty_disp_nothing_after', 'long', 'long_no_space',
                   'long_with_space', 'long_with_newline', 'split', 'tagged_dup', 'flag_tags', 'choice_tags', 'alias',
                   'io_decays', 'io_valid', 'resources', 'res_tags', 'empty_tag_map', 'helper:unknown', 'helper:size', 'helper:frustum',
-                  'empty_choice_name', 'default_needs_escape')
+                  'empty_choice_name', 'default_needs_escape', 'default:numberlike',
+                  'default:numberlike_not_bare_safe', 'choice:numberlike')
         + tuple('type:' + n for n in ('BASE', 'POINT', 'BRUSH', 'ROPES', 'TRACK', 'FILTER', 'NPC', 'EXTEND'))),
     Sub('binary', execute_binary, strategy=gen_bin_strategy, enumerate=binary_enumerate, quick=200, thorough=4000,
         quick_shards=8, floor=50, enum_counts_distinct=True,
@@ -1246,8 +1256,7 @@ ASSUMPTIONS = [
     'parser only knows \\n',
     'spawnflags keyvalues have no display name, default or description in FGD syntax; flag captions lose newlines, and with '
     'label_spawnflags a leading "[N]" / leading blanks belong to the generated label (captions are generated without them)',
-    'choice captions are always written in original-parser form (newline -> space, \'"\' -> "\'\'", no backslashes); numeric choice '
-    'values are plain numerals',
+    'choice captions are always written in original-parser form (newline -> space, \'"\' -> "\'\'", no backslashes)',
     'boolean defaults: empty is exported as 0, yes/no are aliases of 1/0',
     'helper arguments are in the form the FGD syntax can express: identifiers/paths without commas or parentheses, numbers that '
     'the formatters print exactly (multiples of 1/4), line()/cylinder() in their 3/5 and 3/4/6/7 argument forms, '
